@@ -839,6 +839,15 @@ def evaluate(case):  # pylint: disable=too-many-locals,too-many-branches,too-man
                 except R.RefError as e:
                     detail['reference_decoder'] = str(e)[:200]
             findings.append(Finding('%s/%s' % (clause, locus), detail))
+        elif not hints(model):
+            # the prescribed bytes are a function of the field values: composing the same object again (a
+            # retransmission, a transcript hash) must give them again, and the fields must still read as the model
+            again, error = _call(lambda: bytes(obj.compose()))
+            if error is not None or again != composed:
+                findings.append(Finding('compose-not-repeatable/%s' % locus, {
+                    'model': _short(model), 'first': composed.hex()[:400],
+                    'second': None if again is None else again.hex()[:400],
+                    'error': None if error is None else repr(error)[:300]}))
     if parsed is not None:
         composed, error = _call(lambda: bytes(parsed.compose()))
         if (error is not None or composed not in expected) and not any(f.key.startswith('compose-differs') for f in findings):
